@@ -157,6 +157,11 @@ func getRanger(v reflect.Value) (r Ranger, cleanup func(), err error) {
 	if !v.IsValid() {
 		return nil, nil, errors.New("can't range over invalid value")
 	}
+	// a Ranger held in an interface value (an element of a []interface{}, for
+	// example) is still a Ranger
+	for v.Kind() == reflect.Interface && !v.IsNil() {
+		v = v.Elem()
+	}
 	t := v.Type()
 	if t.Implements(rangerType) {
 		return v.Interface().(Ranger), func() { /* no cleanup needed */ }, nil
